@@ -29,7 +29,7 @@ SUITES = {
     "C01": {
         "quick": [("km", ["st_insert__u4f", "st_insert__s8_4a", "st_insert__s8_e", "st_insert__s4f_e",
                           "st_remove__s8_4a", "st_remove__s8_8g0", "st_remove__s8m0_4a", "st_remove_entry__s8_4one",
-                          "st_lookup__s8_8g0", "st_lookup__u8_3t", "st_clear__s8_8g4",
+                          "st_lookup__s8_8g0", "st_lookup__u8_3t", "st_clear__s8_8g4", "st_clear__s8m0_4a",
                           "st_raw_replace_with__s8_8g0", "it_iter_mut__s8_4a",
                           "zst_remove__old", "zst_remove__old2", "zst_insert__old", "en_raw_or_insert__u4f",
                           # extend / from_iter go through reserve: no undocumented panic, contents kept
@@ -48,7 +48,7 @@ SUITES = {
     },
     "C03": {
         "quick": [("km-cnt", ["cnt_insert__unsplit", "cnt_insert__split", "cnt_insert__split_empty", "cnt_remove__split", "cnt_clear__split", "cnt_reserve__split"]),
-                  ("km", ["st_remove__s8_4one", "st_remove__s8m0_4a", "st_insert__s8_4a", "st_insert__s8_8g4", "st_clear__s8_e",
+                  ("km", ["st_remove__s8_4one", "st_remove__s8m0_4a", "st_insert__s8_4a", "st_insert__s8_8g4", "st_clear__s8_e", "st_clear__s8m0_4a",
                           "en_occ_remove__s8_4one", "rt_drain_filter__s8_4a_m0111_end", "rt_drain_filter__s8_8g4_m110_end",
                           "it_drain__s8_4a_j1", "rt_retain__s8_8g0"])],
         "thorough": [("km-cnt", ["cnt_*"]),
@@ -66,7 +66,7 @@ SUITES = {
     "C05": {
         "quick": [("km", ["st_remove__s8_8g0", "st_remove__s8_8g4", "st_raw_replace_with__s8_8g0", "st_raw_replace_with__s8_8g4",
                           "rt_retain__s8_8g0", "rt_drain_filter__s8_8g0_m1110_end", "rt_drain_filter__s8_4a_m0111_end",
-                          "zst_remove__old", "zst_remove__old2", "en_occ_remove__s8_8g4", "en_occ_replace_with__s8_8g0",
+                          "zst_remove__old", "zst_remove__old2", "zst_retain__old2_drop", "zst_retain__old2_keep", "en_occ_remove__s8_8g4", "en_occ_replace_with__s8_8g0",
                           "it_drain__s8_8g4_j1", "it_into_iter__s8_8g4_j1", "st_insert__s8_8g4"]),
                   ("km-rel", ["st_raw_replace_with__s8_8g0", "st_remove__s8_8g0"]),
                   ("kv", ["kv_reflect_insert_is_not_an_inverse", "kv_replace_bucket_with_restores", "kv_sizing_small"]),
@@ -93,8 +93,8 @@ SUITES = {
         "quick": [("km", ["rt_retain__s8_4a", "rt_retain__s8_8g0", "rt_retain__s8_e", "rt_retain__u8_3t",
                           "rt_drain_filter__s8_4a_m0111_end", "rt_drain_filter__s8_4a_m1100_end", "rt_drain_filter__s8_4a_m1010_j1",
                           "rt_drain_filter__s8_4a_m1101_j2f", "rt_drain_filter__s8_8g0_m1110_end", "rt_drain_filter__s8_8g4_m101_j1",
-                          "rt_drain_filter__u8_3t_m101_end", "rt_drain_filter__s8_e_m010_end", "se_retain__s8_8g0"])],
-        "thorough": [("km", ["rt_*", "se_retain__*"])],
+                          "rt_drain_filter__u8_3t_m101_end", "rt_drain_filter__s8_e_m010_end", "se_retain__s8_8g0", "zst_retain__old2_drop", "zst_retain__old2_keep"])],
+        "thorough": [("km", ["rt_*", "se_retain__*", "zst_retain__*"])],
     },
     "C10": {
         "quick": [("km-cnt", ["cnt_reserve__split", "cnt_reserve__unsplit", "cnt_try_reserve__split", "cnt_try_reserve__unsplit",
@@ -112,7 +112,7 @@ SUITES = {
         "thorough": [("km", ["en_*", "st_raw_replace_with__*"])],
     },
     "C06": {
-        "quick": [("km", ["dr_insert__s8_4a", "dr_insert__u4f", "dr_remove__s8_4one", "dr_remove__s8_8g4", "dr_clear_drop__s8_8g4", "dr_clear_drop__s8_e",
+        "quick": [("km", ["dr_insert__s8_4a", "dr_insert__u4f", "dr_remove__s8_4one", "dr_remove__s8_8g4", "dr_clear_drop__s8_8g4", "dr_clear_drop__s8m0_4a",
                           "dr_retain__s8_8g0", "dr_drain__s8_4a_j1", "dr_drain__s8_4a_end", "dr_drain__s8_4a_j2f", "dr_into_iter__s8_4a_j1", "dr_into_iter__s8_8g4_end",
                           "dr_drain_filter__s8_4a_m1101_j1", "dr_entry_replace_entry__s8_8g0", "dr_entry_replace_key__s8_8g0", "dr_entry_replace_with__s8_8g0", "dr_entry_replace_with__s8_8g4",
                           "dr_entry_remove__s8_8g4", "dr_clone__s8_4a", "it_into_iter__s8_4a_j1", "dr_reserve__s8_4a", "dr_extend1__s8_4a"])],
@@ -125,7 +125,7 @@ SUITES = {
     },
     "C13": {
         "quick": [("km", ["se_insert__s8_4a", "se_remove__s8_8g0", "se_remove__s8m0_4a", "se_take__s8_4one", "se_take__s8m0_4a", "se_get__s8_8g4",
-                          "se_get_or_insert__u4f", "se_get_or_insert_with__s8_8g4", "se_retain__s8_8g0", "se_clear__s8_8g4", "se_extend1__s8_4a",
+                          "se_get_or_insert__u4f", "se_get_or_insert_with__s8_8g4", "se_retain__s8_8g0", "se_clear__s8_8g4", "se_clear__s8m0_4a", "se_extend1__s8_4a",
                           "se_iter__s8_8g4", "se_drain__s8_4a", "se_union__c_f", "se_union__a_e", "se_intersection__c_a", "se_intersection__a_c",
                           "se_difference__c_a", "se_difference__a_e", "se_symdiff__c_f", "se_ops__e_c", "se_preds__c_a"])],
         "thorough": [("km", ["se_*"])],
@@ -139,7 +139,7 @@ SUITES = {
     },
     "C16": {
         "quick": [("km-serde", ["sd_ser_map__s8_4one", "sd_ser_map__s8_8g4", "sd_ser_map__u0", "sd_ser_map__s8_e", "sd_ser_map__u8_3t", "sd_ser_set__s8_8g4",
-                                "sd_de_map__n0", "sd_de_map__n2", "sd_de_set_in_place__s8_4a", "sd_de_set_in_place__s8_e", "sd_de_set_in_place__u0"])],
+                                "sd_de_map__n0", "sd_de_map__n2", "sd_de_set_in_place__s8_4a", "sd_de_set_in_place__s8m0_4a", "sd_de_set_in_place__u0"])],
         "thorough": [("km-serde", ["sd_*"])],
     },
     "C17": {
